@@ -220,6 +220,10 @@ func buildSlice(t *rapid.T, p *plan, d int, elem string) sm.Value {
 			cd = rapid.IntRange(0, 2).Draw(t, "raggeddepth")
 		}
 		it := build(t, p, cd, elem)
+		if elem == "interface" && chance(t, 4, "nilelement") {
+			// a null element: it has no simple type, so it violates whatever the items declare
+			it = sm.Value{Kind: sm.KNil}
+		}
 		if i > 0 && chance(t, 12, "repeat") {
 			it = v.Items[rapid.IntRange(0, i-1).Draw(t, "repeatof")]
 		}
